@@ -173,13 +173,12 @@ Definition key_of (f : option str) (ms : list mcls) : str :=
 (* ---------- Sigma values kept in original_value ---------- *)
 Inductive sval :=
 | SStr (v : sstring) | SNum (z : Z) | SFlt (tok : str) | SBool (b : bool) | SNull
-| SBad                 (* SigmaString.from_str(non-string) under the re modifier *)
 | SRe (v : sstring)    (* SigmaRegularExpression (reachable by value transformations only) *)
 | SNoPlain.            (* NoPlainConversionMixin types (reachable by value transformations only) *)
 
 (* sigma_type(v), or SigmaString.from_str(v) when the re modifier is in the chain *)
 Definition sigma_of (re : bool) (v : pv) : sval :=
-  if re then match v with PStrV s => SStr [PStr s] | _ => SBad end
+  if re then match v with PStrV s => SStr [PStr s] | _ => SNull (* rejected by load_item *) end
   else match v with
        | PStrV s => SStr (parse true s)
        | PInt z | PFloatInt z => SNum z
@@ -195,7 +194,6 @@ Definition value_plain (re : bool) (v : sval) : outcome pv :=
   | SFlt t => Ok (PFloat t)
   | SBool b => Ok (PBool b)
   | SNull => Ok PNull
-  | SBad => Crash C_Type
   | SRe s => Ok (PStrV (to_plain false s))
   | SNoPlain => SigmaErr E_Value
   end.
@@ -212,14 +210,18 @@ Record item := mkItem {
   i_val : T }.
 
 (* DMixed: a programmatically changed detection holding both items and nested detections *)
-Inductive det := DItems (l : list item) | DSubs (l : list det) | DMixed.
+(* DItemsOr: items with item_linking = OR (result of a 1:n field mapping; never produced by loading) *)
+Inductive det := DItems (l : list item) | DSubs (l : list det) | DMixed | DItemsOr (l : list item).
 
+Definition is_str (v : pv) : bool := match v with PStrV _ => true | _ => false end.
 Definition vals_of (v : mval) : list pv := match v with MOne x => [x] | MMany l => l end.
 
 Definition load_item (key : option str) (v : mval) : outcome item :=
   obind (match key with None => Ok (None, []) | Some k => parse_key k end) (fun fm =>
   let '(f, ms) := fm in
-  let orig := map (sigma_of (has_mod M_RegularExpression ms)) (vals_of v) in
+  let re := has_mod M_RegularExpression ms in
+  if re && negb (forallb is_str (vals_of v)) then SigmaErr E_Type else
+  let orig := map (sigma_of re) (vals_of v) in
   obind (apply_mods f ms orig) (fun t => Ok (mkItem f ms (Some orig) t))).
 
 Definition is_plain (d : ddef) : bool := match d with DVal _ => true | _ => false end.
@@ -329,6 +331,14 @@ Definition is_null_def (d : ddef) : bool := match d with DVal PNull => true | _ 
 Fixpoint det_plain (d : det) : outcome ddef :=
   match d with
   | DMixed => SigmaErr E_Value
+  | DItemsOr l =>
+    obind (mapM item_plain l) (fun rs0 =>
+    let rs := filter (fun p => negb (is_none p)) rs0 in
+    match rs with
+    | [] => SigmaErr E_Detection
+    | [x] => Ok (pres_ddef x)
+    | _ => Ok (DList (map pres_ddef rs))
+    end)
   | DSubs l =>
     obind ((fix go (l : list det) : outcome (list ddef) :=
               match l with
